@@ -124,6 +124,13 @@ class Machine:
                 return self.env[e.id]
             return Opaque(e.id)
         if isinstance(e, ast.Attribute):
+            chain = e
+            while isinstance(chain, ast.Attribute):
+                chain = chain.value
+            if isinstance(chain, ast.Name) and isinstance(self.env.get(chain.id), Opaque) and self.env[chain.id].text == chain.id:
+                v = self.attrs(ast.unparse(e))
+                if v is not NotImplemented:
+                    return v
             base = self.ev(e.value)
             if isinstance(base, Opaque):
                 text = f"{base.text}.{e.attr}"
@@ -255,6 +262,10 @@ class Machine:
                 r = a is None and b is None
             elif isinstance(a, bool) and isinstance(b, bool):
                 r = a is b
+            elif isinstance(a, (int, float, str, frozenset, tuple)) and isinstance(b, (int, float, str, frozenset, tuple)) and not isinstance(a, bool) and not isinstance(b, bool):
+                r = a == b              # small immutable values of the model: identical iff equal
+            elif isinstance(a, Opaque) and isinstance(b, Opaque) and a.text == b.text:
+                r = True
             else:
                 raise Undecidable(f"identity test `{ast.unparse(node)[:80]}` on {a!r}, {b!r}")
             return r if isinstance(op, ast.Is) else not r
@@ -429,6 +440,15 @@ class Machine:
             return list(enumerate(args[0]))
         if name == "len" and args and isinstance(args[0], (list, tuple, dict)):
             return len(args[0])
+        if name in ("set", "frozenset") and len(args) <= 1:
+            v = args[0] if args else []
+            if isinstance(v, (list, tuple, dict, set, frozenset)) and all(not isinstance(x, (Opaque, list, dict)) or isinstance(x, Opaque) for x in v):
+                return frozenset(v)
+        if name in ("all", "any") and len(args) == 1 and isinstance(args[0], (list, tuple)):
+            vals = [self.truth(x, e) for x in args[0]]
+            return all(vals) if name == "all" else any(vals)
+        if name == "abs" and len(args) == 1 and isinstance(args[0], (int, float, complex)) and not isinstance(args[0], bool):
+            return abs(args[0])
         if name == "getattr" and len(args) >= 2 and isinstance(args[0], Opaque) and isinstance(args[1], str):
             text = f"{args[0].text}.{args[1]}"
             v = self.attrs(text)
